@@ -61,7 +61,7 @@ def res_Z(x):
 
 
 EXN = {'TypeError': 'TypeError', 'ZeroDivisionError': 'ZeroDivisionError', 'StopIteration': 'StopIteration',
-       'AttributeError': 'AttributeError'}
+       'AttributeError': 'AttributeError', 'ValueError': 'ValueError'}
 
 
 def exn_name(ex):
@@ -115,11 +115,18 @@ QUARTERS = [Fraction(k, 4) for k in range(0, 17)]
 def unit_timer(ctx):
     from golem.core.optimisers.timer import OptimisationTimer, Timer
     cases, meta = [], []
+    thorough = ctx.tier == 'thorough'
     timeouts = [None, Fraction(-1), Fraction(0), Fraction(1, 4), Fraction(1, 2), Fraction(1), Fraction(2), Fraction(3)]
     inits = [Fraction(0), Fraction(1, 4), Fraction(1)]
     iters = [None, 0, 1, 2, 3, 4, 7]
-    grid = list(itertools.product(timeouts, inits, QUARTERS, iters, [False, True]))
-    n = ctx.budget(2500, 10 ** 9)
+    minutes_grid = QUARTERS
+    if thorough:
+        timeouts += [Fraction(-1, 8), Fraction(1, 8), Fraction(3, 4), Fraction(5, 2), Fraction(4), Fraction(6)]
+        inits += [Fraction(1, 8), Fraction(2)]
+        iters += [5, 6, 12]
+        minutes_grid = [Fraction(k, 8) for k in range(0, 49)]
+    grid = list(itertools.product(timeouts, inits, minutes_grid, iters, [False, True]))
+    n = ctx.budget(10 ** 9, 10 ** 9)
     if n < len(grid):
         ctx.rng.shuffle(grid)
         grid = grid[:n]
@@ -195,7 +202,7 @@ def unit_stop(ctx):
     times = [(Fraction(0), Fraction(0)), (Fraction(1, 4), Fraction(0)), (Fraction(1, 2), Fraction(1, 8)),
              (Fraction(1), Fraction(3, 4)), (Fraction(9, 8), Fraction(0)), (Fraction(5, 2), Fraction(1, 4)),
              (Fraction(1, 4), Fraction(1, 2)), (Fraction(1), Fraction(-1441))]
-    per_combo = ctx.budget(24, 10 ** 6)
+    per_combo = ctx.budget(48, 10 ** 6)
     with fake_clock():
         for kind in ('evo', 'random_search'):
             for nog, esi, est, tmo in combos:
@@ -303,11 +310,12 @@ def unit_sizes(ctx):
     # ConstRatePopulationSize.next
     rates = [Fraction(0), Fraction(1, 4), Fraction(1, 2), Fraction(1), Fraction(3, 2), Fraction(-1, 2)]
     maxes = [None, 0, 1, 3, 5, 8, 13]
-    grid = list(itertools.product(range(0, 9), rates, maxes, range(0, 11)))
-    n = ctx.budget(2000, 10 ** 9)
-    if n < len(grid):
-        rng.shuffle(grid)
-        grid = grid[:n]
+    if ctx.tier == 'thorough':
+        rates += [Fraction(1, 8), Fraction(3, 4), Fraction(2), Fraction(-2)]
+        maxes += [2, 4, 21]
+        grid = list(itertools.product(range(0, 14), rates, maxes, range(0, 16)))
+    else:
+        grid = list(itertools.product(range(0, 9), rates, maxes, range(0, 11)))
     for initial, rate, mx, ln in grid:
         obs = ConstRatePopulationSize(pop_size=initial, offspring_rate=float(rate), max_pop_size=mx).next([None] * ln)
         cases.append('UConst %s %s %s %s %s' % (c_Z(initial), q(rate), oz(mx), c_Z(ln), c_Z(int(obs))))
@@ -338,7 +346,7 @@ def unit_sizes(ctx):
     maxvs = [None, 0, 1, 3, 5, 8, 20]
     minvs = [None, 0, 1, 2, 5]
     grid = list(itertools.product(starts, maxvs, minvs))
-    reps = ctx.budget(3, 40)
+    reps = ctx.budget(6, 120)
     for start, mxv, mnv in grid:
         for _ in range(reps):
             ops = [rng.choice(ops_names) for _ in range(rng.choice([3, 6, 9]))]
@@ -364,7 +372,7 @@ def unit_sizes(ctx):
     # AdaptivePopulationSize through init_adaptive_pop_size (parameter_free)
     pop_sizes = list(range(0, 11)) + [13, 21]
     maxps = [None, 0, 1, 2, 3, 4, 5, 6, 8, 13, 21, 55]
-    reps = ctx.budget(2, 60)
+    reps = ctx.budget(6, 250)
     for ps, mx in itertools.product(pop_sizes, maxps):
         for _ in range(reps):
             w = Watcher()
@@ -395,7 +403,7 @@ def unit_sizes(ctx):
             ctx.count('sizes', key=('adaptive', ps, mx, tuple(calls)), nontrivial=bool(mx) and mx >= MIN_POP_SIZE, unit='adaptive')
     # AdaptiveGraphDepth
     grid = list(itertools.product([True, False], range(0, 5), range(0, 6), [0, 1, 2, 3]))
-    reps = ctx.budget(1, 12)
+    reps = ctx.budget(2, 40)
     for adaptive, start, mxd, mxs in grid:
         for _ in range(reps):
             w = Watcher()
@@ -717,11 +725,26 @@ def make_configs(ctx):
     esis = [None, 1, 2]
     ests = [None, 0.01, 100.0]
     tmos = [None, 0, TINY, GENEROUS]
-    stop_grid = [c for c in itertools.product(nogs, esis, ests, tmos) if not (c[0] is None and c[3] in (None, GENEROUS))]
+    bounded = lambda c: not (c[0] is None and c[3] in (None, GENEROUS))
+    stop_grid = [c for c in itertools.product(nogs, esis, ests, tmos) if bounded(c)]
     rng.shuffle(stop_grid)
+
+    def weighted():
+        while True:
+            c = (rng.choices(nogs, [1, 1, 2, 4, 5])[0], rng.choices(esis, [5, 2, 3])[0],
+                 rng.choices(ests, [5, 2, 3])[0], rng.choices(tmos, [3, 2, 2, 4])[0])
+            if bounded(c):
+                return c
     i = 0
     while len(out) < n:
-        nog, esi, est, tmo = stop_grid[i % len(stop_grid)]
+        # thorough: the whole grid of option combinations first; then (and in quick) combinations weighted
+        # towards runs that do evolve
+        if ctx.tier == 'thorough' and i < len(stop_grid):
+            nog, esi, est, tmo = stop_grid[i]
+        elif i % 7 == 3:
+            nog, esi, est, tmo = stop_grid[i % len(stop_grid)]
+        else:
+            nog, esi, est, tmo = weighted()
         kind = kinds[i % len(kinds)]
         i += 1
         scheme = rng.choice(['generational', 'steady_state', 'parameter_free', 'parameter_free'])
@@ -778,13 +801,19 @@ def judge_run(ctx, group, rec, flags):
         ctx.violate(group, s, 'adaptive population size outside [MIN_POP_SIZE, max_pop_size]')
 
 
-def real_runs(ctx):
+def start_runs(ctx):
+    """the real runs go to a small process pool and proceed while the unit groups are evaluated"""
     cfgs = make_configs(ctx)
-    recs = []
-    workers = 4
-    with concurrent.futures.ProcessPoolExecutor(max_workers=workers) as ex:
-        for rec in ex.map(run_real, cfgs, chunksize=1):
-            recs.append(rec)
+    pool = concurrent.futures.ProcessPoolExecutor(max_workers=4)
+    return pool, [pool.submit(run_real, cfg) for cfg in cfgs]
+
+
+def real_runs(ctx, started=None):
+    pool, futures = started or start_runs(ctx)
+    try:
+        recs = [f.result() for f in futures]
+    finally:
+        pool.shutdown(wait=True)
     cases = [run_case(r) for r in recs]
     # canary: one more evolved generation than observed is claimed for a run limited by num_of_generations
     base = next((r for r in recs if r['cfg']['optimiser'] in optrun.POPULATIONAL and r['cfg'].get('num_of_generations') is not None
@@ -834,26 +863,30 @@ def run(ctx):
         'times on the correspondence grids are multiples of 7.5 s so that the float arithmetic of the code is exact where it decides',
         'timedelta.seconds wraps after one day: the stagnation-time criterion is modelled with that wrap (not reachable in practice)',
     ]
-    groups = [('timer', unit_timer), ('stop', unit_stop), ('grouped', unit_grouped), ('sizes', unit_sizes)]
-    for name, fn in groups:
-        cases, meta = fn(ctx)
-        if name == 'timer':
-            # canary: a used-up budget reported as not reached
-            cases.append('UTimer (Some %s) %s %s (Some %s) false false false' % (q(1), q(0), q(2), c_Z(1)))
-            ctx.canaries += 1
-        res = ctx.coq_cases(name, REQ, 'ucheck', cases, 2)
-        if name == 'timer':
-            if res[-1] == (False, False):
-                ctx.canaries_caught += 1
-            res = res[:-1]
-        for m, (ag, ho) in zip(meta, res):
-            if not ho:
-                ctx.violate(name, m, 'unit-level clause of the property fails: %s' % m.get('unit'))
-            if not ag:
-                ctx.disagree(name, m, 'model and implementation differ: %s' % m.get('unit'))
-        ctx.sample(meta[len(meta) // 2])
-    unit_api(ctx)
-    real_runs(ctx)
+    started = start_runs(ctx)
+    try:
+        groups = [('timer', unit_timer), ('stop', unit_stop), ('grouped', unit_grouped), ('sizes', unit_sizes)]
+        for name, fn in groups:
+            cases, meta = fn(ctx)
+            if name == 'timer':
+                # canary: a used-up budget reported as not reached
+                cases.append('UTimer (Some %s) %s %s (Some %s) false false false' % (q(1), q(0), q(2), c_Z(1)))
+                ctx.canaries += 1
+            res = ctx.coq_cases(name, REQ, 'ucheck', cases, 2)
+            if name == 'timer':
+                if res[-1] == (False, False):
+                    ctx.canaries_caught += 1
+                res = res[:-1]
+            for m, (ag, ho) in zip(meta, res):
+                if not ho:
+                    ctx.violate(name, m, 'unit-level clause of the property fails: %s' % m.get('unit'))
+                if not ag:
+                    ctx.disagree(name, m, 'model and implementation differ: %s' % m.get('unit'))
+            ctx.sample(meta[len(meta) // 2])
+        unit_api(ctx)
+        real_runs(ctx, started)
+    finally:
+        started[0].shutdown(wait=False, cancel_futures=True)
 
 
 def replay(ctx, payload):
